@@ -14,6 +14,7 @@
 import PypyrModel.Cmd
 import Props.Lemmas.C17_Serial
 import Props.Lemmas.C17_Async
+import Props.Lemmas.C17_Wait
 
 namespace Pypyr.C17
 open Pypyr.Cmd
@@ -299,6 +300,34 @@ example :
     takeThrough [⟨1, none, 0, "", ""⟩, ⟨2, some .badArgs, 0, "", ""⟩, ⟨3, none, 0, "", ""⟩]
       = [⟨1, none, 0, "", ""⟩, ⟨2, some .badArgs, 0, "", ""⟩] ∧
     startEvents [[⟨1, some .notFound, 0, "", ""⟩], [⟨2, none, 0, "", ""⟩, ⟨3, none, 0, "", ""⟩]] = [.start 2] := by
+  decide +kernel
+
+/-- "… wait for all of them": for every command list — whatever its entries do: exit 0, exit non-zero,
+    die of a signal, or *raise instead of starting* — and every completion schedule, the step returns
+    only after every process it started has finished: nothing is running at that moment, and each
+    started process has its exit (`fin`) in the trace of the step. -/
+theorem async_waits_for_all (cs : List ACommand) (s : List Nat) :
+    (runAsync cs s).running = [] ∧
+    ∀ i ∈ (runAsync cs s).started, Event.fin i ∈ (runAsync cs s).trace := by
+  constructor
+  · simp only [runAsync, final_lanes]
+    simp [finalLane]
+  · intro i hi
+    simp only [runAsync] at hi ⊢
+    cases drainAll_fins _ i hi with
+    | inr h => simp [h]
+    | inl h =>
+      cases runSched_fins _ s i h with
+      | inr h => simp [h]
+      | inl h => simp [flatMap_finsOf_start] at h
+
+/-- an entry that cannot be started declared *first*, a slow failing sibling after it: the sibling is
+    waited for (its exit is in the trace), its failure is listed, its result is in `cmdOut`. -/
+example :
+    let cs : List ACommand := [⟨.many [.one ⟨1, some .notFound, 0, "", ""⟩, .one ⟨2, none, 3, "late", ""⟩], true, true⟩]
+    (runAsync cs []).trace = [.start 2, .fin 2] ∧ (runAsync cs []).running = [] ∧
+    (runAsync cs []).errors = [.spawn 1 .notFound, .exit 2 3] ∧
+    (runAsync cs []).cmdOut = some [.one (.exc 1 .notFound), .one (.res ⟨2, 3, .text "late", .bytes ""⟩)] := by
   decide +kernel
 
 /-- One aggregate error lists every failure: the errors are exactly the instructions attempted that
